@@ -22,7 +22,11 @@ def scenario_tree():
             # twins: the same names inside the root (in a/) and in the place a walk lands when a/b has been moved out and '..' is
             # taken from there (outside/) -- a lookup that loses track returns the host's twin
             ["symlink", H("root/a/hlink"), H("b/f")], ["file", H("root/a/hfile"), H("inside-twin"), 0o644],
-            ["symlink", H("outside/hlink"), H("secret")], ["file", H("outside/hfile"), H("HOSTTWIN"), 0o644]]
+            ["symlink", H("outside/hlink"), H("secret")], ["file", H("outside/hfile"), H("HOSTTWIN"), 0o644],
+            # a sibling of the root whose NAME is the root's followed by " (deleted)": the kernel renders a live directory of that
+            # name exactly like the root's path with the marker it appends for unlinked objects
+            ["dir", H("root (deleted)"), 0o755], ["file", H("root (deleted)/hfile"), H("SIBLINGTWIN"), 0o644],
+            ["symlink", H("root (deleted)/hlink"), H("hfile")]]
 
 
 # attacker actions: (name, ops, reverse ops)
@@ -38,6 +42,10 @@ ACTIONS = [
     ("exchange d with a link to outside", [["exchange", H("root/d"), H("root/evil_dir")]], [["exchange", H("root/d"), H("root/evil_dir")]]),
     ("move a/b up to the top of the root", [["rename", H("root/a/b"), H("root/b_top")]], [["rename", H("root/b_top"), H("root/a/b")]]),
     ("unlink a/b/f", [["unlink", H("root/a/b/f")]], []),
+    ("move a into the sibling directory 'root (deleted)'", [["rename", H("root/a"), H("root (deleted)/stolen_a2")]],
+     [["rename", H("root (deleted)/stolen_a2"), H("root/a")]]),
+    ("move d into the sibling directory 'root (deleted)'", [["rename", H("root/d"), H("root (deleted)/stolen_d2")]],
+     [["rename", H("root (deleted)/stolen_d2"), H("root/d")]]),
 ]
 
 
